@@ -29,6 +29,12 @@ def unhexAux : List Char → Option (List Char)
 
 def unhex (cs : List Char) : Option String := (unhexAux cs).map String.ofList
 
+/-- `h<hex>` token (the marker keeps the empty string a token) -/
+def unhexH (tok : String) : Option String :=
+  match tok.toList with
+  | 'h' :: r => unhex r
+  | _ => none
+
 def hexDigit (n : Nat) : Char :=
   if n < 10 then Char.ofNat ('0'.toNat + n) else Char.ofNat ('a'.toNat + n - 10)
 
@@ -281,8 +287,8 @@ def opProg (st : St) (e : Nat) (toks : List String) : Option (Prog Id) :=
   let refs := st.refs e
   let addr := st.addr e
   match toks with
-  | ["Symbol", n, t] => do some (mkSymbol (← unhex n.toList) (← readTy t))
-  | ["Fresh", t, pre, post] => do some (mkFreshSymbol (← readTy t) (← unhex pre.toList) (← unhex post.toList))
+  | ["Symbol", n, t] => do some (mkSymbol (← unhexH n) (← readTy t))
+  | ["Fresh", t, pre, post] => do some (mkFreshSymbol (← readTy t) (← unhexH pre) (← unhexH post))
   | ["ForAll", vs, b] => do some (mkQuant NT.FORALL (← refs vs) (← ref b))
   | ["Exists", vs, b] => do some (mkQuant NT.EXISTS (← refs vs) (← ref b))
   | ["Function", f, ps] => do some (mkFunction (← ref f) (← refs ps))
@@ -337,7 +343,7 @@ def opProg (st : St) (e : Nat) (toks : List String) : Option (Prog Id) :=
   | ["BVSMod", a, b] => do some (mkBVSMod (← ref a) (← ref b))
   | ["BVRepeat", a, n] => do some (mkBVRepeat (← ref a) (← n.toInt?))
   | ["Array", t, d, kvs] => do some (mkArray addr (← readTy t) (← ref d) (← st.pairs e kvs))
-  | ["Algebraic", h] => do some (create ⟨NT.ALGEBRAIC_CONSTANT, [], .alg (← unhex h.toList)⟩)
+  | ["Algebraic", h] => do some (create ⟨NT.ALGEBRAIC_CONSTANT, [], .alg (← unhexH h)⟩)
   | ["Type", t] => do some (.prim (.internTy (← readTy t)) .pure)
   | ["normalize", r] => do
     let src ← st.ref (1 - e) r
